@@ -12,6 +12,7 @@ import BklProofs.Lemmas.Parser
 import BklProofs.Lemmas.Merge
 import BklProofs.Lemmas.Order
 import BklProofs.Lemmas.Process1
+import BklProofs.Lemmas.C02Files
 namespace Bkl
 
 /-! ## Specification of the selection -/
@@ -842,5 +843,579 @@ example : mergeDocument C02_st C02_patch = .ok C02_st' ∧ (C02_st.docs.map (·.
     C02_patch.id ∉ C02_st.docs.map (·.1) ∧
     C02_patch.id ++ "|matchnull" ∉ C02_st.docs.map (·.1) :=
   ⟨C02_run_example, by decide, by decide, by decide⟩
+
+/-! ## C02 and the file loader: layers that are files with several documents -/
+
+/-- `matchDirective v = none` in the vocabulary of the lemma library -/
+theorem C02_noMatch_iff (v : Val) : matchDirective v = none ↔ fl_NoMatch v := by
+  cases v with
+  | map kvs =>
+    simp only [matchDirective, fl_NoMatch, Option.map_eq_none_iff]
+  | _ => simp [matchDirective, fl_NoMatch]
+
+/-- `$match: null` in the vocabulary of the lemma library; the body is the patch minus `$match` -/
+theorem C02_matchNull_iff (v : Val) :
+    (∃ body, matchDirective v = some (.null, body)) ↔ fl_MatchNull v := by
+  cases v with
+  | map kvs =>
+    simp only [matchDirective, fl_MatchNull]
+    constructor
+    · rintro ⟨body, h⟩
+      cases hg : fget kvs "$match" with
+      | none => rw [hg] at h; cases h
+      | some pat =>
+        rw [hg] at h
+        simp only [Option.map_some, Option.some.injEq, Prod.mk.injEq] at h
+        exact ⟨kvs, rfl, by rw [hg, h.1]⟩
+    · rintro ⟨kvs', e, hg⟩
+      cases e
+      exact ⟨_, by rw [hg]; rfl⟩
+  | _ =>
+    simp only [matchDirective, fl_MatchNull]
+    constructor
+    · rintro ⟨_, h⟩; cases h
+    · rintro ⟨_, h, _⟩; cases h
+
+theorem C02_matchNull_body {v body : Val} (h : matchDirective v = some (.null, body)) :
+    fl_body v = body := by
+  cases v with
+  | map kvs =>
+    simp only [matchDirective] at h
+    cases hg : fget kvs "$match" with
+    | none => rw [hg] at h; cases h
+    | some pat =>
+      rw [hg] at h
+      simp only [Option.map_some, Option.some.injEq, Prod.mk.injEq] at h
+      exact h.2
+  | _ => simp [matchDirective] at h
+
+
+/-- **C02_file_layer_targets.**  Parent file `d/a.e₁` with documents `ps` (`p₁ … pₘ`, none with
+    `$match`), child file `d/a.b.e₂` with documents `cs` (`c₁ … cₖ`), no `$parent`, plain names,
+    link-free directory (`fl_Chain2`).  `mergeFileLayers` of the child from the empty state:
+
+    1. the parent's documents are appended as `m` documents, in order, with ids
+       `<child path>|<parent path>|doc<i>` and no recorded parents (state `stP`);
+    2. then the child's documents are merged one after the other by `mergeDocument`
+       (`runMerges`), document `k` carrying the id `<child path>|doc<k>` and the direct parents
+       `pids` = the ids of **all** `m` parent documents;
+    3. in every state `st` this run passes through, the ancestors of the next child document
+       `c` are exactly `pids`, and the selection (`C02_selection`) is:
+       * no `$match`: `c` is merged into all `m` parent documents (appended if `m = 0`);
+       * `$match: null`: appended as `c.id|matchnull`;
+       * `$match: pat`: merged into the parent documents whose *current* data matches; if none
+         does, into all documents that match (these can only be documents appended by earlier
+         `$match: null` children); if none, `noMatchFound`. -/
+theorem C02_file_layer_targets {fs : FS} {d : Comps} {a b e₁ e₂ : String} {ps cs : List Val}
+    (h : fl_Chain2 fs d a b e₁ e₂ ps cs) (cwd : Comps)
+    (hnp : ∀ p ∈ ps, matchDirective p = none) :
+    let fidB := pathStr (fl_pathB d a b e₂)
+    let fidA := fidB ++ "|" ++ pathStr (fl_pathA d a e₁)
+    let pids := docIdsOf fidA ps.length
+    let stP : PState := ⟨pids.zip ps, pids.map fun i => (i, [])⟩
+    let cdocs := plainDocs fidB pids cs
+    runMerges PState.empty (plainDocs fidA [] ps) = .ok stP ∧
+    mergeFileLayers fs ⟨[], cwd⟩ PState.empty (fl_pathB d a b e₂) = runMerges stP cdocs ∧
+    (∀ (k : Nat) (c : Doc), cdocs[k]? = some c →
+      c.id = fidB ++ "|doc" ++ toString k ∧ c.parents = pids ∧ cs[k]? = some c.data) ∧
+    ∀ (k : Nat) (st : PState) (c : Doc), runMerges stP (cdocs.take k) = .ok st → cdocs[k]? = some c →
+      (∀ id, isAncestorOf (registered st c) c id = pids.contains id) ∧
+      selectionOf st c =
+        match matchDirective c.data with
+        | none => if ps = [] then .append c.id c.data else .merge pids c.data
+        | some (pat, body) =>
+          if pat = .null then .append (c.id ++ "|matchnull") body
+          else
+            let among := idsWhere st fun id v => pids.contains id && matchV v pat
+            let anywhere := idsWhere st fun _ v => matchV v pat
+            if among ≠ [] then .merge among body
+            else if anywhere ≠ [] then .merge anywhere body
+            else .noMatch := by
+  intro fidB fidA pids stP cdocs
+  have hnp' : ∀ p ∈ ps, fl_NoMatch p := fun p hp => (C02_noMatch_iff p).1 (hnp p hp)
+  have hb : fl_Below fidB fidA := fl_below_sub fidB _
+  have hpar : runMerges PState.empty (plainDocs fidA [] ps) = .ok stP := fl_parent_run ps hnp'
+  refine ⟨hpar, ?_, fun k c hc => fl_plainDocs_getElem? _ _ _ k c hc, ?_⟩
+  · have := fl_runMerges_append PState.empty (plainDocs fidA [] ps) cdocs
+    rw [hpar] at this
+    rw [fl_stream2 h cwd]
+    exact this
+  · intro k st c hrun hc
+    have hI := fl_childInv_reach hb ps cs hrun
+    have hfresh := fl_child_next_fresh hb ps cs hc
+    have hcp : c.parents = pids := (fl_plainDocs_getElem? _ _ _ k c hc).2.1
+    have hcid : c.id ∉ pids := fun hm => hfresh (hI.sub _ hm)
+    have hanc : ∀ id, isAncestorOf (registered st c) c id = pids.contains id := by
+      intro id
+      show (allParents (fl_reg st c).known ((fl_reg st c).known.length + 1) c.parents).contains id = _
+      rw [hcp]
+      exact fl_anc_exact (fl_roots_reg hI.roots hcid) id
+    refine ⟨hanc, ?_⟩
+    have hfun : isAncestorOf (registered st c) c = fun id => pids.contains id := funext hanc
+    unfold selectionOf
+    simp only [hfun]
+    cases hmd : matchDirective c.data with
+    | none =>
+      simp only
+      have hids : idsWhere (registered st c) (fun id _ => pids.contains id) = pids :=
+        fl_ids_filter_pids (st := st) hI
+      rw [hids]
+      have hiff : pids = [] ↔ ps = [] := by
+        constructor
+        · intro e
+          have := congrArg List.length e
+          rw [docIdsOf_length] at this
+          exact List.eq_nil_of_length_eq_zero this
+        · intro e; rw [show pids = docIdsOf fidA ps.length from rfl, e]; rfl
+      by_cases hps : ps = []
+      · rw [if_pos hps, if_neg (fun hne => hne (hiff.2 hps))]
+      · rw [if_neg hps, if_pos (fun e => hps (hiff.1 e))]
+    | some pb =>
+      obtain ⟨pat, body⟩ := pb
+      rfl
+
+
+/-- **C02_file_layer_targets, the `$match`-free case, explicitly.**  In the setting of
+    `C02_file_layer_targets` with `m ≥ 1` parent documents and no `$match` in the child either:
+    the result has exactly the `m` parent documents (same ids, same order) and
+
+      document `i` = `merge (… (merge (merge pᵢ c₁) c₂) …) cₖ`  (`cs.foldlM merge pᵢ`).
+
+    * `mergeFileLayers` is *equal* (errors included) to the row-wise computation `fl_layerAll`
+      (each child document is merged into every parent document before the next one is read);
+    * it succeeds exactly when every column `cs.foldlM merge pᵢ` succeeds, and then the documents
+      are these columns.
+    The parent table records, for every child document, its parents `pids` twice (once as its
+    direct parents, once as the documents it was layered onto). -/
+theorem C02_file_layer_docs {fs : FS} {d : Comps} {a b e₁ e₂ : String} {ps cs : List Val}
+    (h : fl_Chain2 fs d a b e₁ e₂ ps cs) (cwd : Comps) (hne : ps ≠ [])
+    (hnp : ∀ p ∈ ps, matchDirective p = none) (hnc : ∀ c ∈ cs, matchDirective c = none) :
+    let fidB := pathStr (fl_pathB d a b e₂)
+    let fidA := fidB ++ "|" ++ pathStr (fl_pathA d a e₁)
+    let pids := docIdsOf fidA ps.length
+    let final (vs : List Val) : PState :=
+      ⟨pids.zip vs,
+        (pids.map fun i => (i, [])) ++ (docIdsOf fidB cs.length).map fun i => (i, pids ++ pids)⟩
+    mergeFileLayers fs ⟨[], cwd⟩ PState.empty (fl_pathB d a b e₂) =
+      (match fl_layerAll ps cs with
+       | .error e => .error e
+       | .ok vs => .ok (final vs)) ∧
+    (∀ vs, ps.mapM (fun p => cs.foldlM merge p) = .ok vs →
+      mergeFileLayers fs ⟨[], cwd⟩ PState.empty (fl_pathB d a b e₂) = .ok (final vs)) ∧
+    (∀ st, mergeFileLayers fs ⟨[], cwd⟩ PState.empty (fl_pathB d a b e₂) = .ok st →
+      ∃ vs, ps.mapM (fun p => cs.foldlM merge p) = .ok vs ∧ st = final vs) := by
+  intro fidB fidA pids final
+  have hb : fl_Below fidB fidA := fl_below_sub fidB _
+  have hrow : mergeFileLayers fs ⟨[], cwd⟩ PState.empty (fl_pathB d a b e₂) =
+      (match fl_layerAll ps cs with
+       | .error e => .error e
+       | .ok vs => .ok (final vs)) := by
+    rw [fl_stream2 h cwd]
+    exact fl_two_layer_all hb ps cs hne (fun p hp => (C02_noMatch_iff p).1 (hnp p hp))
+      (fun c hc => (C02_noMatch_iff c).1 (hnc c hc))
+  refine ⟨hrow, ?_, ?_⟩
+  · intro vs hvs
+    rw [hrow, (fl_layerAll_ok_iff cs ps vs).2 hvs]
+  · intro st hst
+    rw [hrow] at hst
+    cases hla : fl_layerAll ps cs with
+    | error e => rw [hla] at hst; cases hst
+    | ok vs =>
+      rw [hla] at hst
+      cases hst
+      exact ⟨vs, (fl_layerAll_ok_iff cs ps vs).1 hla, rfl⟩
+
+/-- The remaining case of `C02_file_layer_docs`: a parent file with **no** documents.  The child's
+    documents then have no parents at all and (without `$match`) are appended as they are. -/
+theorem C02_file_layer_docs_empty_parent {fs : FS} {d : Comps} {a b e₁ e₂ : String} {cs : List Val}
+    (h : fl_Chain2 fs d a b e₁ e₂ [] cs) (cwd : Comps)
+    (hnc : ∀ c ∈ cs, matchDirective c = none) :
+    let cids := docIdsOf (pathStr (fl_pathB d a b e₂)) cs.length
+    mergeFileLayers fs ⟨[], cwd⟩ PState.empty (fl_pathB d a b e₂) =
+      .ok ⟨cids.zip cs, cids.map fun i => (i, [])⟩ := by
+  intro cids
+  rw [fl_stream2 h cwd]
+  exact fl_parent_run cs (fun c hc => (C02_noMatch_iff c).1 (hnc c hc))
+
+/-- **C02_file_layer_independent.**  In the setting of `C02_file_layer_targets` (the child's
+    documents may carry `$match`): when the run succeeds, document `i` of the result has the id
+    of `pᵢ` and its data is `pᵢ` taken through `c₁ … cₖ` by `fl_layerStep` — at each `cⱼ`:
+    `merge · cⱼ` if `cⱼ` has no `$match`; unchanged if `$match: null`; `merge · body` if the
+    document's current data matches the `$match` pattern and unchanged otherwise.  This is a
+    function of `pᵢ` and `c₁ … cₖ` alone: no other parent document occurs in it. -/
+theorem C02_file_layer_independent {fs : FS} {d : Comps} {a b e₁ e₂ : String} {ps cs : List Val}
+    (h : fl_Chain2 fs d a b e₁ e₂ ps cs) (cwd : Comps)
+    (hnp : ∀ p ∈ ps, matchDirective p = none) {st : PState}
+    (hm : mergeFileLayers fs ⟨[], cwd⟩ PState.empty (fl_pathB d a b e₂) = .ok st)
+    (i : Nat) (hi : i < ps.length) :
+    ∃ v, cs.foldlM fl_layerStep ps[i] = .ok v ∧
+      st.docs[i]? = some (pathStr (fl_pathB d a b e₂) ++ "|" ++ pathStr (fl_pathA d a e₁) ++
+        "|doc" ++ toString i, v) := by
+  rw [fl_stream2 h cwd] at hm
+  exact fl_two_layer_doc (fl_below_sub _ _) ps cs
+    (fun p hp => (C02_noMatch_iff p).1 (hnp p hp)) hm i hi
+
+/-- …so two parent files that hold the same document (at positions `i` and `i'`), under the
+    same child documents, end with the same data in that document — whatever their other
+    documents are, and even if the child uses `$match` (both runs succeeding). -/
+theorem C02_file_layer_noninterference {fs fs' : FS} {d d' : Comps} {a b e₁ e₂ a' b' e₁' e₂' : String}
+    {ps ps' cs : List Val}
+    (h : fl_Chain2 fs d a b e₁ e₂ ps cs) (h' : fl_Chain2 fs' d' a' b' e₁' e₂' ps' cs)
+    (cwd cwd' : Comps)
+    (hnp : ∀ p ∈ ps, matchDirective p = none) (hnp' : ∀ p ∈ ps', matchDirective p = none)
+    {st st' : PState}
+    (hm : mergeFileLayers fs ⟨[], cwd⟩ PState.empty (fl_pathB d a b e₂) = .ok st)
+    (hm' : mergeFileLayers fs' ⟨[], cwd'⟩ PState.empty (fl_pathB d' a' b' e₂') = .ok st')
+    (i i' : Nat) (hi : i < ps.length) (hi' : i' < ps'.length) (he : ps[i] = ps'[i']) :
+    st.docs[i]?.map (·.2) = st'.docs[i']?.map (·.2) := by
+  obtain ⟨v, hv, hs⟩ := C02_file_layer_independent h cwd hnp hm i hi
+  obtain ⟨v', hv', hs'⟩ := C02_file_layer_independent h' cwd' hnp' hm' i' hi'
+  rw [he, hv'] at hv
+  cases hv
+  rw [hs, hs']
+  rfl
+
+/-- **Partial** (no child document with a non-null `$match`; with one the statement is false,
+    see `C02_file_layer_singleton_false`): document `i` of the result is what the
+    single-document parent file `[pᵢ]` would give under the same child.  That run succeeds too
+    and its first document (the only one that is not an appended `…|matchnull` document) holds
+    the data of document `i` of the full run. -/
+theorem C02_file_layer_singleton_partial {fs fs' : FS} {d d' : Comps}
+    {a b e₁ e₂ a' b' e₁' e₂' : String} {ps cs : List Val} (i : Nat) (hi : i < ps.length)
+    (h : fl_Chain2 fs d a b e₁ e₂ ps cs) (h' : fl_Chain2 fs' d' a' b' e₁' e₂' [ps[i]] cs)
+    (cwd cwd' : Comps)
+    (hnp : ∀ p ∈ ps, matchDirective p = none)
+    (hnc : ∀ c ∈ cs, matchDirective c = none ∨ ∃ body, matchDirective c = some (.null, body))
+    {st : PState}
+    (hm : mergeFileLayers fs ⟨[], cwd⟩ PState.empty (fl_pathB d a b e₂) = .ok st) :
+    ∃ st' v, mergeFileLayers fs' ⟨[], cwd'⟩ PState.empty (fl_pathB d' a' b' e₂') = .ok st' ∧
+      cs.foldlM fl_layerStep ps[i] = .ok v ∧
+      st'.docs[0]?.map (·.2) = some v ∧ st.docs[i]?.map (·.2) = some v := by
+  obtain ⟨v, hv, hs⟩ := C02_file_layer_independent h cwd hnp hm i hi
+  have hnp1 : ∀ p ∈ [ps[i]], matchDirective p = none := by
+    intro p hp
+    rw [List.mem_singleton.1 hp]
+    exact hnp _ (List.getElem_mem hi)
+  have hrun := (C02_file_layer_targets h' cwd' hnp1).2.1
+  obtain ⟨st', hst'⟩ := fl_single_layer_ok
+    (fidA := pathStr (fl_pathB d' a' b' e₂') ++ "|" ++ pathStr (fl_pathA d' a' e₁'))
+    (fl_below_sub (pathStr (fl_pathB d' a' b' e₂')) _) ps[i] cs
+    (fun c hc => (hnc c hc).imp (C02_noMatch_iff c).1 (C02_matchNull_iff c).1) ⟨v, hv⟩
+  have hm' : mergeFileLayers fs' ⟨[], cwd'⟩ PState.empty (fl_pathB d' a' b' e₂') = .ok st' := by
+    rw [hrun]; exact hst'
+  obtain ⟨v', hv', hs'⟩ := C02_file_layer_independent h' cwd' hnp1 hm' 0 (by simp)
+  have : v' = v := by
+    have e : [ps[i]][0] = ps[i] := rfl
+    rw [e, hv] at hv'
+    exact (Except.ok.inj hv').symm
+  subst this
+  exact ⟨st', v', hm', hv, by rw [hs']; rfl, by rw [hs]; rfl⟩
+
+/-- The `$match`-free instance of `C02_file_layer_singleton_partial`, with the whole result of
+    the single-document run: it has exactly one document, `cs.foldlM merge pᵢ`, which is the
+    data of document `i` of the full run. -/
+theorem C02_file_layer_singleton_nomatch {fs fs' : FS} {d d' : Comps}
+    {a b e₁ e₂ a' b' e₁' e₂' : String} {ps cs : List Val} (i : Nat) (hi : i < ps.length)
+    (h : fl_Chain2 fs d a b e₁ e₂ ps cs) (h' : fl_Chain2 fs' d' a' b' e₁' e₂' [ps[i]] cs)
+    (cwd cwd' : Comps)
+    (hnp : ∀ p ∈ ps, matchDirective p = none) (hnc : ∀ c ∈ cs, matchDirective c = none)
+    {st : PState}
+    (hm : mergeFileLayers fs ⟨[], cwd⟩ PState.empty (fl_pathB d a b e₂) = .ok st) :
+    ∃ st' v, mergeFileLayers fs' ⟨[], cwd'⟩ PState.empty (fl_pathB d' a' b' e₂') = .ok st' ∧
+      cs.foldlM merge ps[i] = .ok v ∧
+      st'.docs.map (·.2) = [v] ∧ st.docs[i]?.map (·.2) = some v := by
+  obtain ⟨v, hv, hs⟩ := C02_file_layer_independent h cwd hnp hm i hi
+  rw [fl_foldlM_layerStep_noMatch cs _ (fun c hc => (C02_noMatch_iff c).1 (hnc c hc))] at hv
+  have hcol : [ps[i]].mapM (fun p => cs.foldlM merge p) = .ok [v] := by
+    rw [mapM_R_cons, mapM_R_nil, hv]
+  have hnp1 : ∀ p ∈ [ps[i]], matchDirective p = none := by
+    intro p hp
+    rw [List.mem_singleton.1 hp]
+    exact hnp _ (List.getElem_mem hi)
+  have := (C02_file_layer_docs h' cwd' (by simp) hnp1 hnc).2.1 [v] hcol
+  refine ⟨_, v, this, hv, ?_, by rw [hs]; rfl⟩
+  exact fl_map_snd_zip _ _ (docIdsOf_length _ _)
+
+
+/-- **C02_three_layers_after_append.**  Base file `d/a.e₁` (documents `ps`, no `$match`), middle
+    file `d/a.b.e₂` all of whose documents `ms` (at least one) say `$match: null`, top file
+    `d/a.b.c.e₃` (documents `ts`, no `$match`).
+
+    * After the first two files the stream holds the `m` base documents followed by one
+      *appended* document per middle document, with id `<middle doc id>|matchnull` and the
+      patch minus `$match` as data (`fl_body`); the parent table `fl_knownM` records for every
+      middle document its direct parents `pids` **and** the document appended for it.
+    * A document `t` of the top file has the middle file's documents `mids` as direct parents.
+      None of these is in the stream; but through the recorded links every document of the
+      stream is an ancestor of `t`: the appended documents (`mid → mid|matchnull`) and the base
+      documents (`mid → pids`).  So `t` is merged into **all `m + |ms|` documents**: the base
+      documents and the appended ones (`selectionOf st t = .merge (pids ++ appended) t.data`, in
+      every state the top file's run passes through).
+    * Hence the result: `m + |ms|` documents, document `j` = `ts.foldlM merge` of the `j`-th of
+      `ps ++ bodies`. -/
+theorem C02_three_layers_after_append {fs : FS} {d : Comps} {a b c e₁ e₂ e₃ : String}
+    {ps ms ts : List Val} (h : fl_Chain3 fs d a b c e₁ e₂ e₃ ps ms ts) (cwd : Comps)
+    (hne : ms ≠ []) (hnp : ∀ p ∈ ps, matchDirective p = none)
+    (hmn : ∀ v ∈ ms, ∃ body, matchDirective v = some (.null, body))
+    (hnt : ∀ t ∈ ts, matchDirective t = none) :
+    let fidC := pathStr (fl_pathC d a b c e₃)
+    let fidB := fidC ++ "|" ++ pathStr (fl_pathB d a b e₂)
+    let fidA := fidB ++ "|" ++ pathStr (fl_pathA d a e₁)
+    let pids := docIdsOf fidA ps.length
+    let mids := docIdsOf fidB ms.length
+    let appended := mids.map (· ++ "|matchnull")
+    let stM : PState := ⟨pids.zip ps ++ appended.zip (ms.map fl_body), fl_knownM pids mids⟩
+    let tdocs := plainDocs fidC mids ts
+    let final (vs : List Val) : PState :=
+      ⟨(pids ++ appended).zip vs,
+        fl_knownM pids mids ++ (docIdsOf fidC ts.length).map fun i => (i, mids ++ (pids ++ appended))⟩
+    runMerges PState.empty (plainDocs fidA [] ps ++ plainDocs fidB pids ms) = .ok stM ∧
+    mergeFileLayers fs ⟨[], cwd⟩ PState.empty (fl_pathC d a b c e₃) = runMerges stM tdocs ∧
+    (∀ (k : Nat) (st : PState) (t : Doc), runMerges stM (tdocs.take k) = .ok st →
+      tdocs[k]? = some t →
+        t.parents = mids ∧ st.docs.map (·.1) = pids ++ appended ∧
+        (∀ id ∈ pids ++ appended, isAncestorOf (registered st t) t id = true) ∧
+        selectionOf st t = .merge (pids ++ appended) t.data) ∧
+    mergeFileLayers fs ⟨[], cwd⟩ PState.empty (fl_pathC d a b c e₃) =
+      (match fl_layerAll (ps ++ ms.map fl_body) ts with
+       | .error e => .error e
+       | .ok vs => .ok (final vs)) ∧
+    (∀ st, mergeFileLayers fs ⟨[], cwd⟩ PState.empty (fl_pathC d a b c e₃) = .ok st ↔
+      ∃ vs, (ps ++ ms.map fl_body).mapM (fun p => ts.foldlM merge p) = .ok vs ∧ st = final vs) := by
+  intro fidC fidB fidA pids mids appended stM tdocs final
+  have hBA : fl_Below fidB fidA := fl_below_sub fidB _
+  have hCB : fl_Below fidC fidB := fl_below_sub fidC _
+  have hnp' : ∀ p ∈ ps, fl_NoMatch p := fun p hp => (C02_noMatch_iff p).1 (hnp p hp)
+  have hmn' : ∀ v ∈ ms, fl_MatchNull v := fun v hv => (C02_matchNull_iff v).1 (hmn v hv)
+  have hnt' : ∀ t ∈ ts, fl_NoMatch t := fun t ht => (C02_noMatch_iff t).1 (hnt t ht)
+  have hmid : runMerges PState.empty (plainDocs fidA [] ps ++ plainDocs fidB pids ms) = .ok stM :=
+    fl_three_mid hBA ps ms hnp' hmn'
+  have hrow : mergeFileLayers fs ⟨[], cwd⟩ PState.empty (fl_pathC d a b c e₃) =
+      (match fl_layerAll (ps ++ ms.map fl_body) ts with
+       | .error e => .error e
+       | .ok vs => .ok (final vs)) := by
+    rw [fl_stream3 h cwd]
+    exact fl_three_all hBA hCB ps ms ts hne hnp' hmn' hnt'
+  refine ⟨hmid, ?_, ?_, hrow, ?_⟩
+  · have := fl_runMerges_append PState.empty (plainDocs fidA [] ps ++ plainDocs fidB pids ms) tdocs
+    rw [hmid] at this
+    rw [fl_stream3 h cwd, ← List.append_assoc]
+    exact this
+  · intro k st t hrun ht
+    obtain ⟨hids, hanc⟩ := fl_three_reach hBA hCB ps ms ts hne hnt' hrun
+    obtain ⟨_, htp, htd⟩ := fl_plainDocs_getElem? _ _ _ k t ht
+    have hanc' : ∀ id ∈ pids ++ appended,
+        Ancestor (registered st t).known t.parents id := by
+      intro id hid
+      rw [htp]
+      exact fl_ancestor_mono (fun q y hy => fl_lookup_addParents_mono _ _ _ _ _ hy) (hanc id hid)
+    refine ⟨htp, hids, fun id hid => (C02_ancestor_iff _ _ _).2 (hanc' id hid), ?_⟩
+    have hmd : matchDirective t.data = none := hnt _ (List.mem_of_getElem? htd)
+    have hpo : idsWhere (registered st t) (fun id _ => isAncestorOf (registered st t) t id) =
+        pids ++ appended := by
+      have : idsWhere (registered st t) (fun id _ => isAncestorOf (registered st t) t id) =
+          parentsOf (registered st t) t.parents := rfl
+      rw [this, fl_parentsOf_all (st0 := registered st t)
+        (fun p hp => hanc' p.1 (by rw [← hids]; exact List.mem_map_of_mem hp))]
+      exact hids
+    have hidne : pids ++ appended ≠ [] := by
+      intro e
+      have := congrArg List.length e
+      simp only [pids, mids, appended, List.length_append, List.length_map, docIdsOf_length,
+        List.length_nil] at this
+      have := List.length_pos_iff.2 hne
+      omega
+    unfold selectionOf
+    simp only [hmd, hpo]
+    rw [if_pos hidne]
+  · intro st
+    rw [hrow]
+    constructor
+    · intro hst
+      cases hla : fl_layerAll (ps ++ ms.map fl_body) ts with
+      | error e => rw [hla] at hst; cases hst
+      | ok vs =>
+        rw [hla] at hst
+        cases hst
+        exact ⟨vs, (fl_layerAll_ok_iff ts _ vs).1 hla, rfl⟩
+    · rintro ⟨vs, hvs, rfl⟩
+      rw [(fl_layerAll_ok_iff ts _ vs).2 hvs]
+
+/-- the data of an appended document is the middle document minus its `$match` -/
+theorem C02_three_layers_body {v body : Val} (h : matchDirective v = some (.null, body)) :
+    fl_body v = body := C02_matchNull_body h
+
+/-- **C02_ids_unique_files.**  The document ids the loader assigns along a filename chain of
+    any depth (`chainFiles`, see `C03_chain_order_n_partial`: `file|docN`, the file id prefixed
+    by the chain of children it was reached from) are pairwise distinct, and none ends in
+    `|matchnull`. -/
+theorem C02_ids_unique_files (d : Comps) (pre : List String) (R : List CLayer) (c : Option String) :
+    (((chainFiles d pre c R).flatMap (·.docs)).map (·.id)).Nodup ∧
+      ∀ x ∈ ((chainFiles d pre c R).flatMap (·.docs)).map (·.id), ∀ t, x ≠ t ++ "|matchnull" :=
+  ⟨fl_chainFiles_ids_nodup d pre R c, fl_chainFiles_ids_noMN d pre R c⟩
+
+/-- …for the files `loadFileAndParents` actually returns (hypotheses of
+    `C03_chain_order_n_partial`) -/
+theorem C02_ids_unique_loaded (fs : FS) (d cwd : Comps) (P : List CLayer) (x : CLayer)
+    (hd : PlainDir fs d) (hn : (P ++ [x]).length ≤ loadFuel)
+    (hpl : ∀ y ∈ P ++ [x], PlainName y.name) (hok : ChainFilesOK fs d [] (P ++ [x]))
+    {files : List LFile} {ids : List String}
+    (hl : loadFileAndParents fs ⟨[], cwd⟩ loadFuel (prefixPath d [] (P ++ [x])) none [] [] =
+      .ok (files, ids)) :
+    ((files.flatMap (·.docs)).map (·.id)).Nodup := by
+  rw [load_chain (cwd := cwd) hd P x hn hpl hok] at hl
+  cases hl
+  exact fl_chainFiles_ids_nodup d [] _ none
+
+/-- **…so the `ids unique` hypotheses of the C02 theorems hold for file-loaded streams**: while
+    the documents of a loaded chain are merged from the empty state, every state has pairwise
+    distinct document ids (`hnd` of `C02_singleton_stream`, `C02_ids_unique_preserved`) and the
+    next document's id, with or without `|matchnull`, is fresh (`hf₁`, `hf₂` of
+    `C02_ids_unique_preserved`). -/
+theorem C02_ids_unique_run (d : Comps) (pre : List String) (R : List CLayer) (c : Option String)
+    (k : Nat) {st : PState}
+    (h : runMerges PState.empty (((chainFiles d pre c R).flatMap (·.docs)).take k) = .ok st) :
+    (st.docs.map (·.1)).Nodup ∧
+      ∀ p, ((chainFiles d pre c R).flatMap (·.docs))[k]? = some p →
+        p.id ∉ st.docs.map (·.1) ∧ p.id ++ "|matchnull" ∉ st.docs.map (·.1) :=
+  fl_unique_run _ (fl_chainFiles_ids_nodup d pre R c) (fl_chainFiles_ids_noMN d pre R c) k h
+
+
+/-- The unrestricted "document `i` is what the single-document parent file `[pᵢ]` would give" is
+    FALSE once the child uses `$match`: parent `{x: 1}`, `{x: 2}`, child `{$match: {x: 2}, y: 1}`.
+    The full run succeeds (the child is merged into the second document; the first is left
+    alone), but over the single-document parent `{x: 1}` the same child matches nothing and the
+    run fails with `noMatchFound`.  (`C02_file_layer_noninterference` is what remains true with
+    `$match`: *if* both runs succeed, the data agree.) -/
+theorem C02_file_layer_singleton_false :
+    ∃ (fs fs' : FS) (d cwd : Comps) (a b e₁ e₂ : String) (ps cs : List Val) (i : Nat)
+      (hi : i < ps.length),
+      fl_Chain2 fs d a b e₁ e₂ ps cs ∧ fl_Chain2 fs' d a b e₁ e₂ [ps[i]] cs ∧
+      (∀ p ∈ ps, matchDirective p = none) ∧
+      (∃ st, mergeFileLayers fs ⟨[], cwd⟩ PState.empty (fl_pathB d a b e₂) = .ok st) ∧
+      mergeFileLayers fs' ⟨[], cwd⟩ PState.empty (fl_pathB d a b e₂) = .error .noMatchFound := by
+  have hnp : ∀ p ∈ [fl_p0, fl_p1], matchDirective p = none := by decide
+  have hnp1 : ∀ p ∈ [fl_p0], matchDirective p = none := by decide
+  refine ⟨fl_fsMatch, fl_fsOne, ["w"], [], "a", "b", "yaml", "json", [fl_p0, fl_p1], [fl_cm], 0,
+    by decide, fl_fsMatch_chain, fl_fsOne_chain, hnp, ?_, ?_⟩
+  · rw [(C02_file_layer_targets fl_fsMatch_chain [] hnp).2.1]
+    exact fl_cex_full_ok (fl_below_sub _ _)
+  · rw [(C02_file_layer_targets fl_fsOne_chain [] hnp1).2.1]
+    exact fl_cex_one_fail _ _
+
+/-! ### non-vacuity: concrete file systems (`BklProofs/Lemmas/C02Files.lean`) -/
+
+/-- `/w/a.yaml` = `{x: 1}`, `{x: 2}` and `/w/a.b.json` = `{y: 5}`, `{z: 6}` satisfy the hypotheses
+    of `C02_file_layer_targets`, `C02_file_layer_docs`, `C02_file_layer_independent` -/
+example : fl_Chain2 fl_fsPlain ["w"] "a" "b" "yaml" "json" [fl_p0, fl_p1]
+      [.map [("y", .int 5)], .map [("z", .int 6)]] ∧
+    [fl_p0, fl_p1] ≠ [] ∧ (∀ p ∈ [fl_p0, fl_p1], matchDirective p = none) ∧
+    (∀ c ∈ [Val.map [("y", .int 5)], .map [("z", .int 6)]], matchDirective c = none) ∧
+    fl_pathB ["w"] "a" "b" "json" = ["w", "a.b.json"] ∧ fl_pathA ["w"] "a" "yaml" = ["w", "a.yaml"] :=
+  ⟨fl_fsPlain_chain, by decide, by decide, by decide, by decide, by decide⟩
+
+/-- …and there the run succeeds: both columns `cs.foldlM merge pᵢ` do -/
+example : [fl_p0, fl_p1].mapM (fun p => [Val.map [("y", .int 5)], .map [("z", .int 6)]].foldlM merge p) =
+    .ok [.map [("x", .int 1), ("y", .int 5), ("z", .int 6)],
+         .map [("x", .int 2), ("y", .int 5), ("z", .int 6)]] := fl_plain_columns
+
+/-- the `$match` setting of `C02_file_layer_targets` / `C02_file_layer_independent` /
+    `C02_file_layer_noninterference` (the child selects `x: 2`) -/
+example : fl_Chain2 fl_fsMatch ["w"] "a" "b" "yaml" "json" [fl_p0, fl_p1] [fl_cm] ∧
+    (∀ p ∈ [fl_p0, fl_p1], matchDirective p = none) ∧
+    matchDirective fl_cm = some (.map [("x", .int 2)], .map [("y", .int 1)]) ∧
+    ∃ st, mergeFileLayers fl_fsMatch ⟨[], []⟩ PState.empty (fl_pathB ["w"] "a" "b" "json") = .ok st := by
+  have hnp : ∀ p ∈ [fl_p0, fl_p1], matchDirective p = none := by decide
+  refine ⟨fl_fsMatch_chain, hnp, by decide, ?_⟩
+  rw [(C02_file_layer_targets fl_fsMatch_chain [] hnp).2.1]
+  exact fl_cex_full_ok (fl_below_sub _ _)
+
+/-- `C02_file_layer_singleton_partial` / `C02_file_layer_singleton_nomatch`: `fl_fsPlainOne` is
+    `fl_fsPlain` with the parent cut down to its document `0`; the full run succeeds -/
+example : ∃ st, 0 < [fl_p0, fl_p1].length ∧
+    fl_Chain2 fl_fsPlain ["w"] "a" "b" "yaml" "json" [fl_p0, fl_p1]
+      [.map [("y", .int 5)], .map [("z", .int 6)]] ∧
+    fl_Chain2 fl_fsPlainOne ["w"] "a" "b" "yaml" "json" [[fl_p0, fl_p1][0]]
+      [.map [("y", .int 5)], .map [("z", .int 6)]] ∧
+    (∀ p ∈ [fl_p0, fl_p1], matchDirective p = none) ∧
+    (∀ c ∈ [Val.map [("y", .int 5)], .map [("z", .int 6)]], matchDirective c = none) ∧
+    mergeFileLayers fl_fsPlain ⟨[], []⟩ PState.empty (fl_pathB ["w"] "a" "b" "json") = .ok st := by
+  have hnp : ∀ p ∈ [fl_p0, fl_p1], matchDirective p = none := by decide
+  have hnc : ∀ c ∈ [Val.map [("y", .int 5)], .map [("z", .int 6)]], matchDirective c = none := by
+    decide
+  exact ⟨_, by decide, fl_fsPlain_chain, fl_fsPlainOne_chain, hnp, hnc,
+    (C02_file_layer_docs fl_fsPlain_chain [] (by decide) hnp hnc).2.1 _ fl_plain_columns⟩
+
+/-- `C02_file_layer_noninterference`: two different parent files (`fl_fsPlain`, `fl_fsPlainOne`)
+    sharing their document `0`, same child, both runs succeeding -/
+example : ∃ st st', fl_Chain2 fl_fsPlain ["w"] "a" "b" "yaml" "json" [fl_p0, fl_p1]
+      [.map [("y", .int 5)], .map [("z", .int 6)]] ∧
+    fl_Chain2 fl_fsPlainOne ["w"] "a" "b" "yaml" "json" [fl_p0]
+      [.map [("y", .int 5)], .map [("z", .int 6)]] ∧
+    (∀ p ∈ [fl_p0, fl_p1], matchDirective p = none) ∧ (∀ p ∈ [fl_p0], matchDirective p = none) ∧
+    mergeFileLayers fl_fsPlain ⟨[], []⟩ PState.empty (fl_pathB ["w"] "a" "b" "json") = .ok st ∧
+    mergeFileLayers fl_fsPlainOne ⟨[], []⟩ PState.empty (fl_pathB ["w"] "a" "b" "json") = .ok st' ∧
+    [fl_p0, fl_p1][0] = [fl_p0][0] := by
+  have hnp : ∀ p ∈ [fl_p0, fl_p1], matchDirective p = none := by decide
+  have hnc : ∀ c ∈ [Val.map [("y", .int 5)], .map [("z", .int 6)]], matchDirective c = none := by
+    decide
+  have hm := (C02_file_layer_docs fl_fsPlain_chain [] (by decide) hnp hnc).2.1 _ fl_plain_columns
+  obtain ⟨st', _, hm', _⟩ := C02_file_layer_singleton_nomatch 0 (by decide) fl_fsPlain_chain
+    fl_fsPlainOne_chain [] [] hnp hnc hm
+  exact ⟨_, st', fl_fsPlain_chain, fl_fsPlainOne_chain, hnp, by decide, hm, hm', rfl⟩
+
+/-- `C02_file_layer_docs_empty_parent`: nothing forbids an empty parent file -/
+example : ∃ fs : FS, fl_Chain2 fs ["w"] "a" "b" "yaml" "json" [] [fl_p0] :=
+  ⟨⟨[(["w"], .dir), (["w", "a.yaml"], .file (.ok [])), (["w", "a.b.json"], .file (.ok [fl_p0]))]⟩,
+    { dir := plainDir_single (n := .dir) (by decide) (by decide) rfl
+      na := fl_plain_a
+      nb := fl_plain_b
+      fileA := layerFile_of_decide (by decide) (by decide) (fun _ => by decide) (fun _ => by decide)
+        (fun _ => by decide) (fun _ => by decide) (fun h => absurd rfl h) (fun _ => by decide)
+      fileB := layerFile_of_decide (by decide) (by decide) (fun h => absurd rfl h)
+        (fun _ => by decide) (fun _ => by decide) (fun _ => by decide) (fun _ => by decide)
+        (fun _ => by decide)
+      noParentA := fun _ h => nomatch h
+      noParentB := fl_absent_of_mem1 rfl }⟩
+
+/-- `C02_three_layers_after_append`: `/w/a.yaml` = `{x: 1}`, `/w/a.b.json` = `{$match: null, y: 2}`,
+    `/w/a.b.c.toml` = `{z: 3}`; the result has two documents, `{x: 1, z: 3}` and `{y: 2, z: 3}` -/
+example : fl_Chain3 fl_fsThree ["w"] "a" "b" "c" "yaml" "json" "toml" [fl_p0] [fl_mn]
+      [.map [("z", .int 3)]] ∧
+    [fl_mn] ≠ [] ∧ (∀ p ∈ [fl_p0], matchDirective p = none) ∧
+    (∀ v ∈ [fl_mn], ∃ body, matchDirective v = some (.null, body)) ∧
+    (∀ t ∈ [Val.map [("z", .int 3)]], matchDirective t = none) ∧
+    [fl_mn].map fl_body = [.map [("y", .int 2)]] ∧
+    ([fl_p0] ++ [fl_mn].map fl_body).mapM (fun p => [Val.map [("z", .int 3)]].foldlM merge p) =
+      .ok [.map [("x", .int 1), ("z", .int 3)], .map [("y", .int 2), ("z", .int 3)]] := by
+  refine ⟨fl_fsThree_chain, by decide, by decide, ?_, by decide, by decide, ?_⟩
+  · intro v hv
+    rw [List.mem_singleton.1 hv]
+    exact ⟨_, rfl⟩
+  · have hb : [fl_mn].map fl_body = [.map [("y", .int 2)]] := by decide
+    have h1 : merge (.map [("x", .int 1)]) (.map [("z", .int 3)]) =
+        .ok (.map [("x", .int 1), ("z", .int 3)]) := by
+      rw [merge_map_map, mergeMapMap_noreplace rfl, mergeFields_cons]
+      have h1 : ((Val.int 3).toStr = "$delete") = False := by decide
+      have h2 : fget [("x", Val.int 1)] "z" = none := rfl
+      simp only [h1, if_false, h2, mergeFields_nil]
+      rfl
+    have h2 : merge (.map [("y", .int 2)]) (.map [("z", .int 3)]) =
+        .ok (.map [("y", .int 2), ("z", .int 3)]) := by
+      rw [merge_map_map, mergeMapMap_noreplace rfl, mergeFields_cons]
+      have h1 : ((Val.int 3).toStr = "$delete") = False := by decide
+      have h2 : fget [("y", Val.int 2)] "z" = none := rfl
+      simp only [h1, if_false, h2, mergeFields_nil]
+      rfl
+    rw [hb]
+    simp only [List.cons_append, List.nil_append]
+    rw [mapM_R_cons, mapM_R_cons, mapM_R_nil]
+    simp only [fl_foldlM_cons, fl_foldlM_nil, fl_p0, h1, h2]
+
+/-- `C02_ids_unique_files` / `C02_ids_unique_loaded` / `C02_ids_unique_run`: the chain of
+    `C03_chain_order_n_partial`'s example -/
+example : PlainDir chainFS ["w"] ∧ exChain.length ≤ loadFuel ∧ (∀ y ∈ exChain, PlainName y.name) ∧
+    ChainFilesOK chainFS ["w"] [] exChain :=
+  ⟨chainFS_plain, by decide, exChain_plain, exChain_ok⟩
 
 end Bkl
